@@ -997,7 +997,7 @@ class K:
 SCENARIO_KINDS = ['shadow', 'shadow', 'shadow', 'unwind', 'unwind', 'nested_def', 'nested_def', 'loop_in_loop',
                        'arg_alias', 'arg_alias', 'paramless_local', 'paramless_local', 'computed_sources', 'late_macro', 'self_bound',
                        'single_item_range', 'none_param', 'later_param_shadows', 'raw_cycle', 'blockless_routine',
-                       'raw_power', 'odd_counts', 'param_like_macro', 'called_sources']
+                       'raw_power', 'odd_counts', 'param_like_macro', 'called_sources', 'units_under_time']
 
 
 def scenario(rng, world, kind=None):
@@ -1161,6 +1161,23 @@ def scenario(rng, world, kind=None):
         items.append(power(True, 'group "%s"' % grp, [tg('TGroup', grp)]))
         items.append(K.reg('duration', K.lit(2.5)))
         items.append(power(False, 'location "%s" and "%s"' % (loc, name), [tg('TLocation', loc), tg('TLight', name)]))
+    elif kind == 'units_under_time':
+        # a unit switch across the raw boundary while a time of day is held and a duration is set, then commands: the duration is
+        # converted with the switch whatever the time register holds (C01b_2); and back again
+        from bardolph.lib.time_pattern import TimePattern
+        text = rng.choice(['8:00', '12:*', '*:15', '0:00'])
+        pat = '(TPat %s %s)' % (coq_str(text), lang.coq_tp(TimePattern.from_string(text)))
+        name = world[0][0] if world else 'no such'
+        first, second = rng.choice([('raw', 'logical'), ('logical', 'raw')])
+        mode = {'raw': 'UM_RAW', 'logical': 'UM_LOGICAL', 'rgb': 'UM_RGB'}
+        items.append(('units %s' % first, '(SUnits %s)' % mode[first]))
+        items.append(K.reg('duration', K.lit(rng.choice([2, 1.5, 2000, 1500]))))
+        items.append(('time at %s' % text, '(STimeAt [%s])' % pat))
+        items.append(('units %s' % second, '(SUnits %s)' % mode[second]))
+        items.append(('set all', '(SSet OpAll)'))
+        items.append(('on "%s"' % name, '(SOn (OpList [(Target TLight (NStr %s))]))' % coq_str(name)))
+        items.append(('units %s' % first, '(SUnits %s)' % mode[first]))
+        items.append(('set "%s"' % name, '(SSet (OpList [(Target TLight (NStr %s))]))' % coq_str(name)))
     elif kind == 'odd_counts':
         # counts that never meet zero exactly on the way down: a fraction, a negative number, bounds a fraction apart (C01g_1)
         b1 = [K.pr(K.var('q')), K.assign('q', K.expr('q + 1', '(EBin BAdd (EVar "q") (ELit (LInt 1)))'))]
